@@ -1,10 +1,10 @@
 (* Property C04 -- the lifted IL computes the documented result and flags for every operand value.
-   Statements only; proofs are in Proofs/AluProofs.v, ExecProofs.v, ExecProofs2.v, ExecMemProofs.v and ExecAluMemProofs.v.
+   Statements only; proofs are in Proofs/AluProofs.v, ExecProofs.v, ExecProofs2.v, ExecMemProofs.v, ExecAluMemProofs.v and ExecLoopProofs.v.
    Model: Model/IL.v (evaluator) + Model/Lift.v (lifter), tied to the Python code by IL-text and execution
    correspondence on every run; documented semantics: Model/Spec.v (README instruction tables). *)
 From Coq Require Import ZArith NArith List Bool.
 From BE Require Import Model.TableTypes Gen.Tables Model.Regs Model.Decode Model.IL Model.Lift Model.Static Model.Spec
-  Model.Emu Proofs.AluProofs Proofs.ExecProofs Proofs.AccessProofs Proofs.ExecProofs2 Proofs.ExecProofs3 Proofs.ExecMemProofs Proofs.ExecPtrProofs Proofs.ExecStackProofs Proofs.ExecAluMemProofs.
+  Model.Emu Proofs.AluProofs Proofs.ExecProofs Proofs.AccessProofs Proofs.ExecProofs2 Proofs.ExecProofs3 Proofs.ExecMemProofs Proofs.ExecPtrProofs Proofs.ExecStackProofs Proofs.ExecAluMemProofs Proofs.ExecLoopProofs.
 Import ListNotations.
 Open Scope Z_scope.
 
@@ -126,6 +126,25 @@ Theorem C04_alu_A_imem_exact :
   map (fun c => (c, [PReg RA 1; PIMem 1])) [I_ADD; I_SUB; I_ADC; I_SBC; I_AND; I_OR; I_XOR].
 Proof. split; [|split; [|split; [|split; [|split; [|split; [|split; [|exact alu_mem_opcodes_check]]]]]]]; [exact add_A_imem | exact sub_A_imem | exact adc_A_imem | exact sbc_A_imem | exact and_A_imem | exact or_A_imem | exact xor_A_imem]. Qed.
 Print Assumptions C04_alu_A_imem_exact.
+
+(* a counted instruction for EVERY count: MVL (m),(n) with no prefix and with each of the 15 prefixes, every m and n, every
+   I = 0 .. 65535 (induction over the iterations of the lifted label/if/goto loop, no bound on their number): the emulator
+   loop terminates within the fuel it grants, the result is exactly the documented block move - byte k of the source run goes
+   to byte k of the destination run, both runs wrapping inside internal memory, ascending, one byte at a time so overlapping
+   runs smear as documented - I ends at 0 and nothing else architectural changes (scratch registers outside the comparison).
+   Hypotheses: byte memory, 14 scratch registers, I is a 16-bit value (every register file written through Registers.set is) *)
+Theorem C04_mvl_imem_any_count :
+  (forall c, In c pre_choices -> forall n1 n2, (n1 < 256)%N -> (n2 < 256)%N -> forall addr s,
+     mem_wf s -> TW s -> (py_get (rg s) gI < 65536)%N ->
+     exists s' t, exec_decoded (mk_pre c 203 [OIMem 1 n1; OIMem 1 n2] 3) (first_byte c 203) addr s = XOk s' /\
+                  spec_exec (mk_pre c 203 [OIMem 1 n1; OIMem 1 n2] 3) addr s = Some t /\ arch_eqT s' t) /\
+  (d_cls (entry_of 203), d_ops (entry_of 203)) = (I_MVL, [PIMem 1; PIMem 1]).
+Proof. split; [exact mvl_imem_imem | exact mvl_opcode_check]. Qed.
+Print Assumptions C04_mvl_imem_any_count.
+
+Example C04_mvl_hypotheses_satisfiable :
+  mem_wf mvl_example_state /\ TW mvl_example_state /\ (py_get (rg mvl_example_state) gI < 65536)%N /\ py_get (rg mvl_example_state) gI = 40000%N.
+Proof. destruct mvl_hypotheses_satisfiable as (A & B & C). split; [exact A|split; [exact B|split; [exact C|vm_compute; reflexivity]]]. Qed.
 
 (* register-indirect forms: MV A,[r] / [r++] / [--r] / [r+n] / [r-n] and the stores MV [..],A, for r = X, Y, U, S and every
    offset byte: the byte read / written is the one the operand denotes, the pointer is updated as documented (post-increment
